@@ -17,6 +17,15 @@
 // before, between and after accepted ones. The reference tracks the outputs
 // each payer has left; the replay must refuse and accept the same transfers
 // and reproduce token inputs, token outputs and write set.
+//
+// The key alphabet is a dimension of its own (`universe`, worlds.go): besides
+// the plain keys (a,b,c) the same enumeration runs over universes of boundary
+// keys - the empty key, a chain of strict prefixes through the byte 0x00, the
+// byte 0xff, the bucket/key separator "/" - each with all 3^n backing states
+// (rows of the committed state), with the keys read before a scan (rows of
+// the read cache) and written before it (rows of this execution), and with
+// scans whose bounds are nil, "", every key and a bound beyond the last key,
+// consumed fully, stopped after one row, closed at once.
 package c10
 
 import (
@@ -200,17 +209,134 @@ func alphabetTiny() []op {
 	return out
 }
 
+// ---------------------------------------------------------------------------
+// alphabets of the boundary universes (the same shapes as above, generated
+// from the keys and bounds of the universe)
+
+func upoint(u *universe, bkt uint8, kind opKind, keys ...int) []op {
+	var out []op
+	for _, k := range keys {
+		out = append(out, op{kind: kind, u: u.idx, bkt: bkt, key: uint8(k)})
+	}
+	return out
+}
+
+func usel(u *universe, bkt uint8, s, e int, c uint8) op {
+	return op{kind: opSel, u: u.idx, bkt: bkt, s: uint8(s), e: uint8(e), consume: c}
+}
+
+func (u *universe) allKeys() []int {
+	out := make([]int, len(u.keys))
+	for i := range out {
+		out[i] = i
+	}
+	return out
+}
+
+// lo is the lowest start bound that is judged exactly ("" where it is a key,
+// else the first key), hi the bound beyond the last key.
+func (u *universe) lo() int {
+	if u.emptyIsKey {
+		return 1
+	}
+	return 2
+}
+
+func (u *universe) hi() int { return len(u.bounds) - 1 }
+
+// boundaryFull: every key-value call of the quantifier over the universe:
+// Get / Put / Del of every key in the three buckets, Select with every pair of
+// bounds (nil, "", every key, beyond) x 3 consumptions in the three buckets.
+func boundaryFull(u *universe) []op {
+	var out []op
+	for b := uint8(0); b < 3; b++ {
+		for _, kind := range []opKind{opGet, opPut, opDel} {
+			out = append(out, upoint(u, b, kind, u.allKeys()...)...)
+		}
+	}
+	nb := len(u.bounds)
+	for b := uint8(0); b < 3; b++ {
+		for s := 0; s < nb; s++ {
+			for e := 0; e < nb; e++ {
+				for c := uint8(0); c < 3; c++ {
+					out = append(out, usel(u, b, s, e, c))
+				}
+			}
+		}
+	}
+	return out
+}
+
+// boundaryMid (programs of 2 calls; 3 in the thorough tier): all point calls
+// on vb, Get / Put / Del of the first two keys on vb2 and of the first key on
+// the transient bucket; on vb every pair of bounds consumed fully, every pair
+// with start before end or a nil end stopped after one row, two scans closed
+// at once; three scans on vb2, two on the transient bucket.
+func boundaryMid(u *universe) []op {
+	var out []op
+	for _, kind := range []opKind{opGet, opPut, opDel} {
+		out = append(out, upoint(u, 0, kind, u.allKeys()...)...)
+	}
+	for _, kind := range []opKind{opGet, opPut, opDel} {
+		out = append(out, upoint(u, 1, kind, 0, 1)...)
+	}
+	for _, kind := range []opKind{opGet, opPut, opDel} {
+		out = append(out, upoint(u, 2, kind, 0)...)
+	}
+	nb, lo, hi := len(u.bounds), u.lo(), u.hi()
+	for s := 0; s < nb; s++ {
+		for e := 0; e < nb; e++ {
+			out = append(out, usel(u, 0, s, e, consAll))
+		}
+	}
+	for s := 0; s < nb; s++ {
+		for e := 0; e < nb; e++ {
+			if s < e || e == 0 {
+				out = append(out, usel(u, 0, s, e, consOne))
+			}
+		}
+	}
+	out = append(out, usel(u, 0, 0, 0, consNone), usel(u, 0, lo, hi, consNone))
+	out = append(out, usel(u, 1, 0, 0, consAll), usel(u, 1, lo, hi, consAll), usel(u, 1, lo, hi, consOne))
+	out = append(out, usel(u, 2, 0, 0, consAll), usel(u, 2, lo, hi, consAll))
+	return out
+}
+
+// boundarySmall (programs of 3 calls; 4 in the thorough tier): all point calls
+// on vb, Put of the first key on vb2; on vb the whole bucket by nil bounds and
+// by (lowest bound, beyond), each consumed fully and stopped after one row,
+// the range without its first key and the range without its last key; the
+// whole of vb2.
+func boundarySmall(u *universe) []op {
+	var out []op
+	for _, kind := range []opKind{opGet, opPut, opDel} {
+		out = append(out, upoint(u, 0, kind, u.allKeys()...)...)
+	}
+	out = append(out, upoint(u, 1, opPut, 0)...)
+	lo, hi := u.lo(), u.hi()
+	out = append(out,
+		usel(u, 0, 0, 0, consAll), usel(u, 0, 0, 0, consOne),
+		usel(u, 0, lo, hi, consAll), usel(u, 0, lo, hi, consOne),
+		usel(u, 0, lo+1, hi, consAll), usel(u, 0, lo, hi-1, consAll),
+		usel(u, 1, 0, 0, consAll),
+	)
+	return out
+}
+
 // family: all programs of exactly `length` calls over `alpha`, each run on
-// the backing states `backs` (indexes, see backingOf).
+// the backing states `backs` (indexes, see backingOf) of universe u.
 type family struct {
 	name   string
 	alpha  []op
 	length int
 	backs  []int
+	u      *universe
 }
 
-func allBackings() []int {
-	out := make([]int, 27)
+func allBackings() []int { return backingsOf(uABC) }
+
+func backingsOf(u *universe) []int {
+	out := make([]int, u.nBackings())
 	for i := range out {
 		out[i] = i
 	}
@@ -220,7 +346,9 @@ func allBackings() []int {
 // xferBackings: transfer-only programs of length >= 4 name no key; they run
 // on the backing -LD only (every pair of the 17 transfers runs on all 27
 // backings in full^2, every triple of the 8 core transfers in mix^3).
-func xferBackings() []int { return []int{backing{stAbsent, stLive, stDeleted}.index()} }
+func xferBackings() []int {
+	return []int{backing{u: uABC, st: [maxKeys]uint8{stAbsent, stLive, stDeleted}}.index()}
+}
 
 func (f family) size() int {
 	n := 1
@@ -251,11 +379,32 @@ func families(tier core.Tier) []family {
 	full, mid, small, tiny := alphabetFull(), alphabetMid(), alphabetSmall(), alphabetTiny()
 	xf, xcore, mix := alphabetXfer(), alphabetXferCore(), alphabetMix()
 	all, xb := allBackings(), xferBackings()
+	u0 := uABC
+	var fams []family
 	if tier == core.Thorough {
-		return []family{{"full", full, 1, all}, {"full", full, 2, all}, {"mid", mid, 3, all}, {"small", small, 4, all}, {"tiny", tiny, 5, all},
-			{"xfer", xf, 4, xb}, {"xfer", xf, 5, xb}, {"xfercore", xcore, 6, xb}, {"xfercore", xcore, 7, xb}, {"mix", mix, 3, all}, {"mix", mix, 4, all}, {"mix", mix, 5, xb}}
+		fams = []family{{"full", full, 1, all, u0}, {"full", full, 2, all, u0}, {"mid", mid, 3, all, u0}, {"small", small, 4, all, u0}, {"tiny", tiny, 5, all, u0},
+			{"xfer", xf, 4, xb, u0}, {"xfer", xf, 5, xb, u0}, {"xfercore", xcore, 6, xb, u0}, {"xfercore", xcore, 7, xb, u0}, {"mix", mix, 3, all, u0}, {"mix", mix, 4, all, u0}, {"mix", mix, 5, xb, u0}}
+	} else {
+		fams = []family{{"full", full, 1, all, u0}, {"full", full, 2, all, u0}, {"small", small, 3, all, u0}, {"xfer", xf, 4, xb, u0}, {"mix", mix, 3, all, u0}}
 	}
-	return []family{{"full", full, 1, all}, {"full", full, 2, all}, {"small", small, 3, all}, {"xfer", xf, 4, xb}, {"mix", mix, 3, all}}
+	// the boundary universes: all their backing states (3^keys) at every length
+	for _, u := range []*universe{uEmptyPrefix, uSepHigh, uNilKey} {
+		bs := backingsOf(u)
+		fams = append(fams, family{u.name + ".full", boundaryFull(u), 1, bs, u}, family{u.name + ".mid", boundaryMid(u), 2, bs, u}, family{u.name + ".small", boundarySmall(u), 3, bs, u})
+		if tier == core.Thorough && u.emptyIsKey {
+			// where the empty key is a key: one call deeper, and every pair of
+			// calls of the quantifier (the separator / 0xff keys go deeper
+			// together with the others in boundary6 below)
+			fams = append(fams, family{u.name + ".small", boundarySmall(u), 4, bs, u}, family{u.name + ".full", boundaryFull(u), 2, bs, u})
+		}
+	}
+	if tier == core.Thorough {
+		// all six boundary keys in one bucket: 729 backing states
+		u := uBoundary6
+		bs := backingsOf(u)
+		fams = append(fams, family{u.name + ".full", boundaryFull(u), 1, bs, u}, family{u.name + ".mid", boundaryMid(u), 2, bs, u})
+	}
+	return fams
 }
 
 // ---------------------------------------------------------------------------
@@ -304,10 +453,19 @@ type hit struct {
 	count int
 }
 
-type job struct{ fam, from, to int }
+// job: the programs [from, to) of a family on the backings backs.
+type job struct {
+	fam, from, to int
+	backs         []int
+}
 
 func caseOf(b backing, prog []string) map[string]interface{} {
-	return map[string]interface{}{"backing": b.String(), "backing_legend": "status of vb/a, vb/b, vb/c in the committed state: - never written, L live, D deleted (put in one block, deleted in the next)", "program": prog}
+	if !b.u.quoted {
+		return map[string]interface{}{"backing": b.String(), "backing_legend": "status of vb/a, vb/b, vb/c in the committed state: - never written, L live, D deleted (put in one block, deleted in the next)", "program": prog}
+	}
+	return map[string]interface{}{"universe": b.u.name, "keys": b.u.ktok, "backing": b.String(),
+		"backing_legend": "status of the keys of the universe (in the order of `keys`, written as Go string literals) in bucket vb of the committed state: - never written, L live, D deleted (put in one block, deleted in the next)",
+		"program":        prog}
 }
 
 // silence sends the standard output to /dev/null while the sandbox runs:
@@ -339,17 +497,32 @@ func run(tier core.Tier) *core.Report {
 	if workers < 1 {
 		workers = 1
 	}
-	const chunk = 512
+	// the plain universe: a job is 512 programs on all backings of the family;
+	// the boundary universes (up to 729 backings): a job is up to 2048 programs
+	// on one backing, so that a worker needs few worlds at a time
+	const chunk, chunkB = 512, 2048
 	jobs := make(chan job, 64)
 	go func() {
 		for fi, f := range fams {
 			n := f.size()
-			for from := 0; from < n; from += chunk {
-				to := from + chunk
-				if to > n {
-					to = n
+			if !f.u.quoted {
+				for from := 0; from < n; from += chunk {
+					to := from + chunk
+					if to > n {
+						to = n
+					}
+					jobs <- job{fi, from, to, f.backs}
 				}
-				jobs <- job{fi, from, to}
+				continue
+			}
+			for i := range f.backs {
+				for from := 0; from < n; from += chunkB {
+					to := from + chunkB
+					if to > n {
+						to = n
+					}
+					jobs <- job{fi, from, to, f.backs[i : i+1]}
+				}
 			}
 		}
 		close(jobs)
@@ -358,7 +531,7 @@ func run(tier core.Tier) *core.Report {
 	type result struct {
 		st   *stats
 		hits map[string]*hit
-		done []int // programs completed per family
+		done []int // (backing, program) pairs completed per family
 		err  error
 	}
 	results := make([]result, workers)
@@ -371,38 +544,39 @@ func run(tier core.Tier) *core.Report {
 			defer vhook.Release()
 			res := result{st: newStats(), hits: map[string]*hit{}, done: make([]int, len(fams))}
 			defer func() { results[wi] = res }()
-			ws, err := buildWorldSet()
-			if err != nil {
-				res.err = err
-				for range jobs {
-				}
-				return
-			}
-			defer ws.drop()
+			wc := newWorldCache()
+			defer wc.drop()
 			buf := make([]op, 8)
+			var skipUntil []int
 			for j := range jobs {
-				if rep.Expired() {
+				if rep.Expired() || res.err != nil {
 					continue
 				}
 				f := fams[j.fam]
 				// prefix pruning: execution stops at a call that panics, so all
 				// programs sharing the calls up to it are one trace (per backing);
 				// in index order they are the rest of a contiguous block
-				var skipUntil [27]int
-				for idx := j.from; idx < j.to; idx++ {
+				skipUntil = append(skipUntil[:0], make([]int, len(j.backs))...)
+				for idx := j.from; idx < j.to && res.err == nil; idx++ {
 					prog := f.program(idx, buf)
-					for _, bi := range f.backs {
-						if idx < skipUntil[bi] {
+					for bp, bi := range j.backs {
+						if idx < skipUntil[bp] {
 							res.st.pruned++
+							res.done[j.fam]++
 							continue
 						}
-						fds, panicAt := checkProgram(ws[bi], prog, res.st)
+						bw, err := wc.get(f.u, bi)
+						if err != nil {
+							res.err = err
+							break
+						}
+						fds, panicAt := checkProgram(bw, prog, res.st)
 						if panicAt >= 0 {
 							block := 1
 							for k := panicAt + 1; k < f.length; k++ {
 								block *= len(f.alpha)
 							}
-							skipUntil[bi] = (idx/block + 1) * block
+							skipUntil[bp] = (idx/block + 1) * block
 						}
 						for _, fd := range fds {
 							r := rank{f.length, oddBounds(prog), j.fam, idx, bi}
@@ -413,11 +587,11 @@ func run(tier core.Tier) *core.Report {
 							}
 							h.count++
 							if r.less(h.r) {
-								h.f, h.r, h.b, h.prog = fd, r, ws[bi].b, progStrings(prog)
+								h.f, h.r, h.b, h.prog = fd, r, bw.b, progStrings(prog)
 							}
 						}
+						res.done[j.fam]++
 					}
-					res.done[j.fam]++
 				}
 			}
 		}(wi)
@@ -466,15 +640,24 @@ func run(tier core.Tier) *core.Report {
 	var famCov []map[string]interface{}
 	programs := 0
 	for i, f := range fams {
-		if done[i] != f.size() {
+		// done counts (backing, program) pairs; a program is done when it ran on every backing
+		if done[i] != f.size()*len(f.backs) {
 			complete = false
 		}
-		programs += done[i]
-		famCov = append(famCov, map[string]interface{}{"alphabet": f.name, "alphabet_size": len(f.alpha), "length": f.length, "programs": f.size(), "programs_done": done[i], "backing_states": len(f.backs)})
+		programs += done[i] / len(f.backs)
+		famCov = append(famCov, map[string]interface{}{"universe": f.u.name, "alphabet": f.name, "alphabet_size": len(f.alpha), "length": f.length, "programs": f.size(), "programs_done": done[i] / len(f.backs), "backing_states": len(f.backs)})
 	}
 	rep.Set("families", famCov)
 	rep.Set("programs", programs)
-	rep.Set("backing_states", 27)
+	nBack, seenU := 0, map[uint8]bool{}
+	for _, f := range fams {
+		if !seenU[f.u.idx] {
+			seenU[f.u.idx] = true
+			nBack += f.u.nBackings()
+		}
+	}
+	rep.Set("backing_states", nBack) // 27 of the plain universe + 3^keys per boundary universe
+	rep.Set("key_dimension", keyDimension(fams, total))
 	rep.Set("states", len(total.states))
 	rep.Set("transitions", total.ops)
 	rep.Set("traces_validated_against_impl", total.traces)
@@ -519,13 +702,18 @@ func run(tier core.Tier) *core.Report {
 		"{0, within one output, one output, one more, the balance, one over, far over}; a transfer is accepted iff amount > 0 and the payer still has enough outputs not selected by an earlier transfer of the program, so programs hold refused transfers "+
 		"(no funds, not enough funds, funds used up, zero) before, between and after accepted ones of the same and of other payers. Judged per call: read-your-writes, exact scans, accept / refuse of every transfer; per trace: read set, write set, "+
 		"token inputs / outputs = accepted transfers in order with change; replay: same result of every call (incl. which transfers are refused), same write set, same token inputs and outputs. "+
-		"A trace is non-trivial when it reaches a new reference state (`states`).")
-	rep.Set("state_definition", "reference state = backing (27) x per bucket/key {untouched, put, deleted} x {must be in the read set} x outputs of A (0..10) and of C (0..2) not yet selected x {a transfer was refused by the utxo reader}")
+		"A trace is non-trivial when it reaches a new reference state (`states`). "+
+		"KEY DIMENSION: the enumeration is repeated per key universe (`key_dimension`): the plain keys (a,b,c) and universes of boundary keys - the empty key \"\" (an empty non-nil slice; raw key `vb/`; in universe nil_key the point calls pass it as a nil slice, which is how it arrives through the contract bridge), the strict-prefix chain a < a\\x00 < ab, the bytes 0x00 and 0xff, the bucket/key separator `/` alone and inside a key next to its first component (a, a/b). "+
+		"In each universe every key is a row of the committed state in every status (all 3^n backings: never written / live / deleted), a row of the read cache (Get / scan before the scan under test) and a row written or deleted in this execution, in bucket vb, in vb2 (whose name extends vb) and in the transient bucket; "+
+		"scan bounds range over nil, \"\", every key and a bound beyond the last key, with full consumption, stop after one row and close at once. Oracle: the same reference (exactly the live keys of [start,end) in byte order, each once, with the latest value; start \"\" is exact where \"\" is a key) and replay equality; violation keys of these universes end in the kind of key concerned (.empty_key, .empty_key_passed_as_nil, .key_with_0x00, .key_with_0xff, .key_with_separator, .plain_key).")
+	rep.Set("state_definition", "reference state = universe x backing (3^keys) x per bucket/key {untouched, put, deleted} x {must be in the read set} x outputs of A (0..10) and of C (0..2) not yet selected x {a transfer was refused by the utxo reader}")
 	rep.Set("bound", describeBound(fams))
 	rep.Set("reduction", "values: the value of a Put is fixed by its position in the program (p,q,r,s,t), never the delete marker; the sandbox compares values only with the delete marker and Del(k) = Put(k, marker) is enumerated as Del. "+
 		"Alphabets: lengths 1-2 use the complete alphabet of the quantifier (368 calls); longer programs use the sub-alphabets listed in `families` (fewer bound pairs / consumptions, fewer keys in the empty and the transient bucket, 4-5 of the 17 transfers; families xfer / xfercore / mix carry the long programs around refused transfers). "+
 		"Transfers: outputs of one payer have equal size, so the ledger's choice among them (map order of its cache) changes neither the number selected nor the change; inputs are compared by owner and amount with the model and exactly (reference included) between run and replay. "+
-		"Every program runs on all 27 backing states, except the families listed with 1 backing state (transfer-only programs of length >= 4, which name no key, and mix^5 in the thorough tier): backing -LD; no sampling.")
+		"Every program runs on all 27 backing states, except the families listed with 1 backing state (transfer-only programs of length >= 4, which name no key, and mix^5 in the thorough tier): backing -LD; no sampling. "+
+		"Boundary-key universes: one representative per kind of boundary (one empty key, one 0x00 chain, one 0xff key, the separator alone and once inside a key); a program names keys of one universe only (4 keys per universe in the quick tier, all 6 boundary keys together in the thorough tier); "+
+		"their programs of length 1 use every call of the quantifier over the universe, longer ones the sub-alphabets `.mid` / `.small` (all point calls on vb; fewer scans, fewer calls on vb2 and the transient bucket); transfers are not part of these alphabets (they name no key; covered over the plain universe). Every program of a boundary family runs on all 3^keys backings.")
 	rep.Set("exhaustive", complete)
 	for _, s := range samples() {
 		rep.Sample(s)
@@ -535,7 +723,40 @@ func run(tier core.Tier) *core.Report {
 	rep.Assume("first run: a transfer must be accepted iff its amount is positive and covered by the payer's outputs not selected earlier in the same execution (the ledger locks what it selects)")
 	rep.Assume("nil / empty bounds: the statement does not fix their absolute meaning, so scans with such a bound are judged only by: yielded keys are live, ascending, carry the visible value; plus the replay clause")
 	rep.Assume("phantoms: the read set is not required to cover keys a scan did not yield (absent or deleted in the store)")
+	rep.Assume("bucket names hold no separator \"/\" (contract names and kernel buckets never do), so the raw key bucket/key splits at its first \"/\"; keys holding the separator are part of the key dimension, buckets holding it are not")
+	rep.Assume("the empty key is a legal key (no layer refuses it: the bridge passes an empty key through, as a nil slice); the empty slice and the nil slice name the same row")
 	return rep
+}
+
+// keyDimension reports, per key universe of the run, what was enumerated and
+// the vacuity guards of the key dimension: how often every key was found by
+// Get, yielded by a scan (first / at all), from which layer, recorded in the
+// read and write set, yielded again on replay.
+func keyDimension(fams []family, total *stats) []map[string]interface{} {
+	var out []map[string]interface{}
+	seen := map[uint8]bool{}
+	for _, f := range fams {
+		u := f.u
+		if seen[u.idx] {
+			continue
+		}
+		seen[u.idx] = true
+		us := total.byU[u.idx]
+		perKey := map[string]interface{}{}
+		for k, tok := range u.ktok {
+			perKey[tok] = map[string]interface{}{
+				"class": keyClass(u.keys[k]), "get_found": us.getFound[k], "rows_yielded": us.yielded[k], "yielded_as_first_row": us.yieldedFirst[k],
+				"rows_from_this_executions_writes": us.bySource[0][k], "rows_of_keys_read_earlier_in_the_execution": us.bySource[1][k], "rows_only_in_the_committed_state": us.bySource[2][k],
+				"read_set_entries": us.rsetEntries[k], "write_set_entries": us.wsetEntries[k], "rows_yielded_on_replay": us.replayedRows[k],
+			}
+		}
+		out = append(out, map[string]interface{}{
+			"universe": u.name, "keys": u.ktok, "scan_bounds": u.btok, "backing_states": u.nBackings(), "empty_start_bound_judged_exactly": u.emptyIsKey,
+			"traces": us.traces, "scans_judged_exactly": us.scansExact, "scans_merging_rows_of_several_layers": us.mergedScans, "early_stops_with_more_rows_left": us.earlyStops,
+			"per_key": perKey,
+		})
+	}
+	return out
 }
 
 func describeBound(fams []family) string {
@@ -543,8 +764,16 @@ func describeBound(fams []family) string {
 	for _, f := range fams {
 		parts = append(parts, fmt.Sprintf("%s^%d (%d calls, %d programs, %d backings)", f.name, f.length, len(f.alpha), f.size(), len(f.backs)))
 	}
+	var us []string
+	seen := map[string]bool{}
+	for _, f := range fams {
+		if f.u.quoted && !seen[f.u.name] {
+			seen[f.u.name] = true
+			us = append(us, fmt.Sprintf("%s: keys (%s), scan bounds (%s), %d backings", f.u.name, strings.Join(f.u.ktok, ", "), strings.Join(f.u.btok, ", "), f.u.nBackings()))
+		}
+	}
 	return "all programs of " + strings.Join(parts, ", ") + "; backing states {never written, live, deleted}^3 of (a,b,c) in bucket vb (27; the families listed with 1 backing: -LD); buckets vb, vb2 (empty), $transient; " +
-		"token state: A owns 10 outputs of 100, C 2 outputs of 2, D nothing; every transfer pays B"
+		"token state: A owns 10 outputs of 100, C 2 outputs of 2, D nothing; every transfer pays B; boundary-key universes (keys and bounds as Go string literals; backings {never written, live, deleted}^keys): " + strings.Join(us, "; ")
 }
 
 // samples: a few actual traces (fixed programs on fixed backings).
@@ -553,22 +782,31 @@ func samples() []interface{} {
 	defer vhook.Release()
 	var out []interface{}
 	for _, s := range []struct {
+		u    *universe
 		b    string
 		prog []string
 	}{
-		{"LDL", []string{"put vb b p", "sel vb a d all", "get vb c"}},
-		{"L-D", []string{"get vb c", "sel vb a d one", "xfer 1"}},
-		{"LLL", []string{"put $transient a p", "sel vb b d all", "del vb2 a"}},
-		{"-L-", []string{"xfer 5 from C", "xfer 3 from C", "xfer 1 from D", "put vb a p", "xfer 101"}},
+		{uABC, "LDL", []string{"put vb b p", "sel vb a d all", "get vb c"}},
+		{uEmptyPrefix, "LLDL", []string{`get vb "ab"`, `put vb "a\x00" q`, `sel vb "" "b" all`, `sel vb nil nil one`}},
+		{uSepHigh, "LDLL", []string{`del vb "a"`, `put vb2 "/" q`, `sel vb "/" "\xff\xff" all`}},
+		{uNilKey, "-LL", []string{`put vb nil p`, `sel vb nil nil all`, `get vb nil`}},
+		{uABC, "-L-", []string{"xfer 5 from C", "xfer 3 from C", "xfer 1 from D", "put vb a p", "xfer 101"}},
 	} {
-		b, _ := parseBacking(s.b)
+		b, err := parseBacking(s.u, s.b)
+		if err != nil {
+			continue
+		}
 		bw, err := buildWorld(b)
 		if err != nil {
 			continue
 		}
 		var prog []op
 		for _, x := range s.prog {
-			o, _ := parseOp(x)
+			o, err := parseOp(s.u, x)
+			if err != nil {
+				out = append(out, map[string]interface{}{"error": err.Error()})
+				continue
+			}
 			prog = append(prog, o)
 		}
 		out = append(out, trace(bw, prog))
@@ -590,6 +828,9 @@ func trace(bw *bworld, prog []op) map[string]interface{} {
 		obs = append(obs, prog[i].String()+" -> "+prog[i].observation(r))
 	}
 	out := map[string]interface{}{"backing": bw.b.String(), "observed": obs}
+	if bw.b.u.quoted {
+		out["universe"], out["keys"] = bw.b.u.name, bw.b.u.ktok
+	}
 	if len(res) == len(prog) && !res[len(res)-1].panicked {
 		if err := sb.Flush(); err == nil {
 			rw := sb.RWSet()
@@ -599,11 +840,11 @@ func trace(bw *bworld, prog []op) map[string]interface{} {
 				if vd.RefTxid == nil {
 					st = "empty-version"
 				}
-				rs = append(rs, vd.GetPureData().GetBucket()+"/"+string(vd.GetPureData().GetKey())+"@"+st)
+				rs = append(rs, vd.GetPureData().GetBucket()+"/"+bw.b.u.show(string(vd.GetPureData().GetKey()))+"@"+st)
 			}
 			ws, _ := wsetMap(rw.WSet)
 			out["read_set"] = rs
-			out["write_set"] = describeWSet(ws)
+			out["write_set"] = describeWSet(bw.b.u, ws)
 			out["token_inputs"] = describeUtxoIns(sb.UTXORWSet().Rset)
 			out["token_outputs"] = describeUtxoOuts(sb.UTXORWSet().WSet)
 		}
@@ -613,19 +854,24 @@ func trace(bw *bworld, prog []op) map[string]interface{} {
 
 func replay(c json.RawMessage) (bool, string, error) {
 	var cs struct {
-		Backing string   `json:"backing"`
-		Program []string `json:"program"`
+		Universe string   `json:"universe"` // absent: the plain universe (a,b,c)
+		Backing  string   `json:"backing"`
+		Program  []string `json:"program"`
 	}
 	if err := json.Unmarshal(c, &cs); err != nil {
 		return false, "", err
 	}
-	b, err := parseBacking(cs.Backing)
+	u := universeByName(cs.Universe)
+	if u == nil {
+		return false, "", fmt.Errorf("unknown universe %q", cs.Universe)
+	}
+	b, err := parseBacking(u, cs.Backing)
 	if err != nil {
 		return false, "", err
 	}
 	var prog []op
 	for _, s := range cs.Program {
-		o, err := parseOp(s)
+		o, err := parseOp(u, s)
 		if err != nil {
 			return false, "", err
 		}
